@@ -249,7 +249,13 @@ const OPS: [Operation; 6] = [
 ];
 
 fn any_message<'a>(arr: &'a [u8; 255]) -> Message<'a> {
+    any_message_of(arr, 0x3FF)
+}
+/// kinds: bit k set = message kind k allowed (0 SendData, 1 DataChunksSent, 2 Hello, 3 QueryState, 4 ReportState,
+/// 5 RequestOperation, 6 AckOperation, 7 PixelsComplete, 8 Goodbye, 9 Unknown)
+fn any_message_of<'a>(arr: &'a [u8; 255], kinds: u16) -> Message<'a> {
     let kind: u8 = kani::any();
+    kani::assume(kind <= 9 && (kinds >> kind) & 1 == 1);
     let a: u16 = kani::any();
     let si: usize = kani::any();
     let oi: usize = kani::any();
@@ -260,7 +266,10 @@ fn any_message<'a>(arr: &'a [u8; 255]) -> Message<'a> {
             kani::assume(n <= 255);
             match Data::try_new(&arr[..n]) {
                 Ok(d) => Message::SendData(Offset(a), d),
-                Err(_) => panic!("try_new"),
+                Err(e) => {
+            core::mem::forget(e); // never drop an error value in a harness: its drop glue drags in every dyn Error
+            panic!("try_new")
+        }
             }
         }
         1 => Message::DataChunksSent(ChunkCount(a)),
@@ -276,7 +285,10 @@ fn any_message<'a>(arr: &'a [u8; 255]) -> Message<'a> {
             kani::assume(n <= 255);
             match Data::try_new(&arr[..n]) {
                 Ok(d) => Message::Unknown(Frame::new(Address(a), MsgType(kani::any()), d)),
-                Err(_) => panic!("try_new"),
+                Err(e) => {
+            core::mem::forget(e); // never drop an error value in a harness: its drop glue drags in every dyn Error
+            panic!("try_new")
+        }
             }
         }
     }
@@ -357,7 +369,10 @@ where
         v.truncate(REPLY_LEN);
         match Data::try_new(v) {
             Ok(d) => Ok(Frame::new(Address(REPLY_ADDR), MsgType(REPLY_TYPE), d)),
-            Err(_) => panic!("try_new"),
+            Err(e) => {
+            core::mem::forget(e); // never drop an error value in a harness: its drop glue drags in every dyn Error
+            panic!("try_new")
+        }
         }
     }
 }
@@ -373,10 +388,48 @@ fn stub_sleep(d: Duration) {
 #[kani::stub(flipdot_core::Frame::write, stub_frame_write)]
 #[kani::stub(flipdot_core::Frame::read, stub_frame_read)]
 #[kani::stub(std::thread::sleep, stub_sleep)]
+fn c16_c18_event_order_reply_due() {
+    let (wf, rf, _d, due, n) = event_order(0b00_0010_1100); // Hello, QueryState, RequestOperation
+    kani::cover!(!wf && due && !rf && n == 3, "cov_in_progress_paced");
+    kani::cover!(!wf && due && !rf && n == 2, "cov_reply_unpaced");
+    kani::cover!(!wf && due && rf, "cov_read_failure");
+    kani::cover!(wf, "cov_write_failure");
+}
+#[kani::proof]
+#[kani::unwind(8)]
+#[kani::stub(flipdot_core::Frame::write, stub_frame_write)]
+#[kani::stub(flipdot_core::Frame::read, stub_frame_read)]
+#[kani::stub(std::thread::sleep, stub_sleep)]
+fn c16_c18_event_order_one_way() {
+    let (wf, _rf, _d, due, n) = event_order(0b01_1101_0010); // DataChunksSent, ReportState, AckOperation, PixelsComplete, Goodbye
+    kani::cover!(!wf && !due && n == 1, "cov_one_way");
+    kani::cover!(wf, "cov_write_failure");
+}
+#[kani::proof]
+#[kani::unwind(8)]
+#[kani::stub(flipdot_core::Frame::write, stub_frame_write)]
+#[kani::stub(flipdot_core::Frame::read, stub_frame_read)]
+#[kani::stub(std::thread::sleep, stub_sleep)]
+fn c16_c18_event_order_data() {
+    let (wf, _rf, d, _due, n) = event_order(0b00_0000_0001); // SendData, data of every length 0..=255
+    kani::cover!(!wf && d && n == 2, "cov_data_paced");
+    kani::cover!(wf && n == 1, "cov_write_failure_no_sleep");
+}
+#[kani::proof]
+#[kani::unwind(8)]
+#[kani::stub(flipdot_core::Frame::write, stub_frame_write)]
+#[kani::stub(flipdot_core::Frame::read, stub_frame_read)]
+#[kani::stub(std::thread::sleep, stub_sleep)]
+fn c16_c18_event_order_unknown() {
+    let (wf, _rf, _d, due, n) = event_order(0b10_0000_0000); // Unknown(frame), any type, data of every length 0..=255
+    kani::cover!(!wf && !due && n == 1, "cov_unknown_forwarded_no_reply");
+}
+
+/// The union of the four harnesses above covers every message; each is complete on its part of the domain.
 #[allow(unsafe_code)]
-fn c16_c18_process_message_event_order() {
+fn event_order(kinds: u16) -> (bool, bool, bool, bool, usize) {
     let arr: [u8; 255] = kani::any();
-    let m = any_message(&arr);
+    let m = any_message_of(&arr, kinds);
     let reply_due = matches!(m, Message::Hello(_) | Message::QueryState(_) | Message::RequestOperation(_, _));
     let is_data = matches!(m, Message::SendData(_, _));
     let expect_frame = Frame::from(m.clone());
@@ -432,15 +485,21 @@ fn c16_c18_process_message_event_order() {
                 }
                 match &r {
                     Ok(Some(reply)) => {
-                        // the reply is the decoding of the frame that was read
-                        let back = Frame::from(reply.clone());
-                        assert!(back.address().0 == ra && back.message_type().0 == rt && back.data().len() == rl);
-                        if rl > 0 {
-                            assert!(back.data()[0] == rd[0]);
-                        }
-                        if paced {
-                            assert!(matches!(reply, Message::ReportState(_, State::PageLoadInProgress) | Message::ReportState(_, State::PageShowInProgress)));
-                        }
+                        // the reply is the decoding of the frame that was read (Message::from itself is the subject of C04)
+                        let mut v = rd.to_vec();
+                        v.truncate(rl);
+                        let d = match Data::try_new(v) {
+                            Ok(d) => d,
+                            Err(e) => {
+                                core::mem::forget(e);
+                                panic!("try_new")
+                            }
+                        };
+                        let expect = Message::from(Frame::new(Address(ra), MsgType(rt), d));
+                        assert!(*reply == expect);
+                        let in_progress = matches!(reply, Message::ReportState(_, State::PageLoadInProgress) | Message::ReportState(_, State::PageShowInProgress));
+                        assert!(paced == in_progress);
+                        core::mem::forget(expect);
                     }
                     _ => panic!("a reply was read but not returned"),
                 }
@@ -450,12 +509,8 @@ fn c16_c18_process_message_event_order() {
             assert!(matches!(r, Ok(None)));
         }
     }
-    kani::cover!(!wf && is_data && n == 2, "cov_data_paced");
-    kani::cover!(!wf && reply_due && !rf && n == 3, "cov_in_progress_paced");
-    kani::cover!(!wf && reply_due && rf, "cov_read_failure");
-    kani::cover!(wf, "cov_write_failure");
-    kani::cover!(!wf && !reply_due && !is_data && n == 1, "cov_one_way");
     core::mem::forget(r);
+    (wf, rf, is_data, reply_due, n)
 }
 
 /// Vacuity canary for this package: must FAIL.
